@@ -189,7 +189,7 @@ impl Monitor for C12 {
         vec![("aggregate", tier.pick(8400, 168_000)), ("ties", tier.pick(600, 12_000)), ("structures", tier.pick(30_000, 600_000))]
     }
     fn rule(&self) -> &'static str {
-        "case i -> objective (i mod 7), data-set size from {1,2,3,40,63,64,65,127,128,129,200,257} (i/7 mod 12; the parallel chunk is 64), soft-max output or not, output width 1 or >1, tolerance from {f32::MIN_POSITIVE, 1e-9, log-uniform [1e-12,1e-6], log-uniform [1e-6,0.5]}, pool of 1..16 threads; random network ending in a dense layer (dense/conv/deconv/pool before it). Soft-max targets are one-hot, soft probabilities, log-probabilities (all entries negative) or arbitrary reals with a unique maximum. Targets are generated from the network's own predictions so that every component is clearly inside (an exact hit or |t-p| <= tol/2) or clearly outside (>= 2 tol + 0.01) the tolerance and arg-max ties do not occur. Oracle: harness-side aggregation over the library's own predict() and objective loss(): mean loss (f64, bound n*eps), accuracy by the stated rule; predict_batch(xs)[i] must be bit-equal to predict(xs[i]) in input order (also for 0 inputs), predict(x) bit-equal to the last activation of forward(x). Every second case repeats validate() and predict_batch() on the same network with a shorter prefix of the data. ties: soft-max outputs with exactly equal maxima (uniform distribution): the accuracy must equal the frequency of some single class among the targets, whatever the tie-breaking convention. structures: chains of 3..8 layers (dense / spatial / mixed) with 0..2 skip connections and 1..3 loop connections in any arrangement the library accepts (disjoint, nested, overlapping ranges, with and without input skips), all 5 x 5 accumulation pairs: predict bit-equal to the final activation of forward, predict_batch bit-equal to predict of each input (configurations on which both forward and predict panic are counted, not judged). Distinct = distinct (network, objective, size, tolerance) descriptors."
+        "case i -> objective (i mod 7), data-set size from {1,2,3,40,63,64,65,127,128,129,200,257} (i/7 mod 12; the parallel chunk is 64), soft-max output or not, output width 1 or >1, tolerance from {f32::MIN_POSITIVE, 1e-9, log-uniform [1e-12,1e-6], log-uniform [1e-6,0.5]}, pool of 1..16 threads; random network ending in a dense layer (dense/conv/deconv/pool before it). One data set in five is a slow walk (consecutive inputs a few 1e-6 apart), one in ten repeats earlier inputs exactly. Soft-max targets are one-hot, soft probabilities, log-probabilities (all entries negative) or arbitrary reals with a unique maximum. Targets are generated from the network's own predictions so that every component is clearly inside (an exact hit or |t-p| <= tol/2) or clearly outside (>= 2 tol + 0.01) the tolerance and arg-max ties do not occur. Oracle: harness-side aggregation over the library's own predict() and objective loss(): mean loss (f64, bound n*eps), accuracy by the stated rule; predict_batch(xs)[i] must be bit-equal to predict(xs[i]) in input order (also for 0 inputs), predict(x) bit-equal to the last activation of forward(x). Every second case repeats validate() and predict_batch() on the same network with a shorter prefix of the data. ties: soft-max outputs with exactly equal maxima (uniform distribution): the accuracy must equal the frequency of some single class among the targets, whatever the tie-breaking convention. structures: chains of 3..8 layers (dense / spatial / mixed) with 0..2 skip connections and 1..3 loop connections in any arrangement the library accepts (disjoint, nested, overlapping ranges, with and without input skips), all 5 x 5 accumulation pairs: predict bit-equal to the final activation of forward, predict_batch bit-equal to predict of each input (configurations on which both forward and predict panic are counted, not judged). Distinct = distinct (network, objective, size, tolerance) descriptors."
     }
     fn assumptions(&self) -> Vec<&'static str> {
         vec!["boundary semantics (|t-p| == tol, arg-max ties, NaN losses) are unspecified and not generated", "per-sample predict() and loss() are trusted here (they are the subject of C02/C06)"]
@@ -254,9 +254,21 @@ impl Monitor for C12 {
             _ => unreachable!(),
         };
         // inputs, predictions, targets
+        // one data set in five is a slow walk (consecutive inputs a few 1e-6 apart: different
+        // samples that an approximate comparison would take for equal), one in ten contains
+        // exact repetitions of earlier inputs
+        let family = rng.range(0, 9);
         let mut xs: Vec<Vec<f32>> = Vec::new();
         while xs.len() < n {
-            xs.push((0..cfg.input.count()).map(|_| rng.f32_in(-1.0, 1.0)).collect());
+            let x: Vec<f32> = match (family, xs.last()) {
+                (0 | 1, Some(prev)) => prev.iter().map(|v| v + rng.f32_in(1e-6, 6e-6) * if rng.bool() { 1.0 } else { -1.0 }).collect(),
+                (2, Some(_)) if rng.chance(0.3) => xs[rng.range(0, xs.len() - 1)].clone(),
+                _ => (0..cfg.input.count()).map(|_| rng.f32_in(-1.0, 1.0)).collect(),
+            };
+            xs.push(x);
+        }
+        if family <= 1 && n >= 2 {
+            out.count("data_sets_that_are_slow_walks", 1);
         }
         let x_t: Vec<Tensor> = xs.iter().map(|x| tensor_of(cfg.input, x)).collect();
         let preds: Vec<Vec<f32>> = match guard(|| x_t.iter().map(|x| flat(&net.predict(x))).collect::<Vec<_>>()) {
